@@ -368,6 +368,7 @@ class C11Oracle(Oracle):
         import verif.util as U
         start, n = op["start"], op["n"]
         bad = None
+        e0 = sim.env.epoch_days      # date numbers count from matplotlib's date epoch (1970-01-01 unless changed)
         try:
             for days in range(DAY0 + start, min(DAY0 + start + n, DAYN + 1)):
                 date = MC.date_int(days)
@@ -379,14 +380,14 @@ class C11Oracle(Oracle):
                     bad = ("unixtime_to_date", t0, U.unixtime_to_date(t0), date)
                     break
                 dn = U.date_to_datenum(date)
-                if dn != float(days):
-                    bad = ("date_to_datenum", date, dn, days)
+                if dn != float(days - e0):
+                    bad = ("date_to_datenum", date, dn, days - e0)
                     break
                 un = U.unixtime_to_datenum(t0 + 43200)
-                if abs(un - (days + 0.5)) > 1e-9:
-                    bad = ("unixtime_to_datenum", t0 + 43200, un, days + 0.5)
+                if abs(un - (days - e0 + 0.5)) > 1e-9:
+                    bad = ("unixtime_to_datenum", t0 + 43200, un, days - e0 + 0.5)
                     break
-                if U.datenum_to_date(dn) != date or U.datenum_to_date(days + 0.75) != date:
+                if U.datenum_to_date(dn) != date or U.datenum_to_date(days - e0 + 0.75) != date:
                     bad = ("datenum_to_date", dn, U.datenum_to_date(dn), date)
                     break
                 if U.unixtime_to_date(U.date_to_unixtime(date)) != date or U.datenum_to_date(U.unixtime_to_datenum(t0)) != date:
